@@ -1143,3 +1143,76 @@ Section Adjoint.
     - apply (adjoint_map2o l r o l' r' o' Nl Nr No HT _ xs Axs ys HM HF).
   Qed.
 End Adjoint.
+
+(* ---------------------------------------------------------------------------------------- *)
+(* The first clause of C14 over the model, for every carrier (no ring needed): mv applies
+   einsum(l,r->o)(blocks, leaf) to EACH leaf - the one shared block array, or the block array at the
+   same position - and nothing else; it is defined exactly when every per-leaf einsum is (and, per
+   leaf, the trees match); on a pytree without leaves it returns the pytree without leaves. *)
+Section EachLeaf.
+  Variable K : Type.
+  Variables (k0 : K) (kadd kmul : K -> K -> K).
+  Local Notation einsumE := (einsum K k0 kadd kmul).
+  Local Notation mvK := (mv K k0 kadd kmul).
+
+  Lemma map2o_Forall3 (f : arr K -> arr K -> option (arr K)) : forall Bs xs ys,
+    map2o K f Bs xs = Some ys <->
+    length Bs = length xs /\ length ys = length xs /\
+    forall n B x, nth_error Bs n = Some B -> nth_error xs n = Some x ->
+                  exists y, nth_error ys n = Some y /\ f B x = Some y.
+  Proof.
+    induction Bs as [|B Bs IH]; intros [|x xs] ys; simpl.
+    - split.
+      + intros H; inversion H; subst. repeat split; auto. intros [|n] B x HB; discriminate HB.
+      + intros (_ & Hl & _). destruct ys; [reflexivity|discriminate Hl].
+    - split; [discriminate|]. intros (Hl & _); discriminate Hl.
+    - split; [discriminate|]. intros (Hl & _); discriminate Hl.
+    - split.
+      + destruct (f B x) as [y|] eqn:E; [|discriminate].
+        destruct (map2o K f Bs xs) as [ys'|] eqn:E2; [|discriminate].
+        intros H; inversion H; subst ys. apply IH in E2. destruct E2 as (L1 & L2 & HN).
+        simpl. repeat split; try (f_equal; assumption).
+        intros [|n] B' x' HB Hx; simpl in *.
+        * inversion HB; inversion Hx; subst. exists y; split; [reflexivity|assumption].
+        * apply (HN n B' x' HB Hx).
+      + intros (L1 & L2 & HN). destruct ys as [|y ys]; [discriminate L2|].
+        destruct (HN 0 B x eq_refl eq_refl) as (y' & Hy & Hf). simpl in Hy. inversion Hy; subst y'.
+        rewrite Hf.
+        assert (E2 : map2o K f Bs xs = Some ys).
+        { apply IH. simpl in L1, L2. repeat split; try lia.
+          intros n B' x' HB Hx. apply (HN (S n) B' x' HB Hx). }
+        rewrite E2. reflexivity.
+  Qed.
+
+  Lemma nth_error_map_const {A B} (b : B) (xs : list A) n x :
+    nth_error xs n = Some x -> nth_error (map (fun _ => b) xs) n = Some b.
+  Proof.
+    revert n; induction xs as [|a xs IH]; intros [|n] H; simpl in *; try discriminate; auto.
+  Qed.
+
+  (* one shared block array: the n-th output leaf is einsum(B, n-th leaf), for every leaf *)
+  Lemma mv_shared_each_leaf l r o (B : arr K) xs ys :
+    mvK l r o (Shared B) xs = Some ys <->
+    length ys = length xs /\
+    forall n x, nth_error xs n = Some x -> exists y, nth_error ys n = Some y /\ einsumE l r o B x = Some y.
+  Proof.
+    unfold mv. rewrite map2o_Forall3. rewrite map_length. split.
+    - intros (_ & L & HN). split; [exact L|]. intros n x Hx.
+      apply (HN n B x (nth_error_map_const B xs n x Hx) Hx).
+    - intros (L & HN). repeat split; auto. intros n B' x HB Hx.
+      rewrite (nth_error_map_const B xs n x Hx) in HB. inversion HB; subst B'. apply (HN n x Hx).
+  Qed.
+
+  (* one block array per leaf: the n-th output leaf is einsum(n-th block array, n-th leaf) *)
+  Lemma mv_perleaf_each_leaf l r o Bs xs ys :
+    mvK l r o (PerLeaf Bs) xs = Some ys <->
+    length Bs = length xs /\ length ys = length xs /\
+    forall n B x, nth_error Bs n = Some B -> nth_error xs n = Some x ->
+                  exists y, nth_error ys n = Some y /\ einsumE l r o B x = Some y.
+  Proof. unfold mv. apply map2o_Forall3. Qed.
+
+  (* a pytree without leaves is mapped to itself, whatever the blocks *)
+  Lemma mv_no_leaves l r o (B : arr K) :
+    mvK l r o (Shared B) [] = Some [] /\ mvK l r o (PerLeaf []) [] = Some [].
+  Proof. split; reflexivity. Qed.
+End EachLeaf.
